@@ -5,7 +5,7 @@ SRC=/tmp/seed_out/$ID/$M
 D=$(mktemp -d /tmp/sev.XXXXXX)
 git -C /repo worktree add -q --detach "$D/wt" HEAD
 ( cd "$D/wt" && git apply "$SRC/patch.diff" ) || { echo "PATCH DOES NOT APPLY"; git -C /repo worktree remove --force "$D/wt"; exit 2; }
-T=$(cd "$D/wt" && /venv/bin/python -m pytest -q -p no:cacheprovider 2>&1 | tail -1)
+T=$(cd "$D/wt" && PYTHONPATH="$D/wt/src" /venv/bin/python -m pytest -q -p no:cacheprovider 2>&1 | tail -1)
 DEMO=$(ls $SRC/demo.py $SRC/test_demo.py 2>/dev/null | head -1)
 ( cd /tmp && DIAMETER_SRC="$D/wt/src" timeout 120 /venv/bin/python "$DEMO" >/dev/null 2>&1 ); RP=$?
 ( cd /tmp && DIAMETER_SRC="/repo/src" timeout 120 /venv/bin/python "$DEMO" >/dev/null 2>&1 ); RU=$?
